@@ -418,6 +418,7 @@ func (r *scRun) gapBackfill(a map[string]interface{}) {
 	// signatures are not checked here), decoded with the harness's own codec
 	in := make(chan *gossipv1.SignedVAAWithQuorum)
 	var got, stored int
+	injected := []interface{}{} // what the call handed to the processor's inbound channel: the only way it may fill the store
 	var inMu sync.Mutex
 	stop := make(chan struct{})
 	var wg sync.WaitGroup
@@ -429,6 +430,9 @@ func (r *scRun) gapBackfill(a map[string]interface{}) {
 			case m := <-in:
 				inMu.Lock()
 				got++
+				if sv, ok := r.w.byHash[sha256.Sum256(m.Vaa)]; ok {
+					injected = append(injected, map[string]interface{}{"id": sv.ID.J(), "tag": sv.Tag})
+				}
 				inMu.Unlock()
 				if v, err := vhDecode(m.Vaa, true); err == nil && len(v.Sigs) > 0 {
 					r.d.StoreSignedVAA(shToVAA(v))
@@ -499,7 +503,7 @@ func (r *scRun) gapBackfill(a map[string]interface{}) {
 		}
 		first, last = shSeqA(resp.FirstSequence), shSeqA(resp.LastSequence)
 	}
-	r.log("GapBackfill", map[string]interface{}{"st": stJ, "via": "admin", "plan": planJ, "fills": fills, "served": served, "requests": requests},
+	r.log("GapBackfill", map[string]interface{}{"st": stJ, "via": "admin", "plan": planJ, "fills": fills, "served": served, "injected": injected, "requests": requests},
 		map[string]interface{}{"err": errs, "code": code, "badid": bad, "missing": as, "first": first, "last": last})
 }
 
